@@ -1363,4 +1363,122 @@ example : (5 / 12 : ℚ) ≠ 0 ∧ (2 : ℚ) - 2 * (1 / 2) * (3 / 4) = 3 * (5 / 
 
 end nonvacuity
 
+
+/-! ### Round 6 (a): array form of `nucleationBarrier` (bulk / dislocation) -/
+
+section barrier_array
+variable {α : Type} [Field α] [LinearOrder α] [IsStrictOrderedRing α] [Trans α]
+
+/-- **the array form is the scalar form entry by entry**: mask, compress, element-wise maximum (`axis=0`) and scatter, as
+`nucleationBarrier` does them, give for EVERY batch of driving forces (positive, non-positive, clamped and unclamped mixed)
+the list of the scalar answers -/
+theorem barrier_array_eq_map_scalar (f γ Rmin : α) (dGs : List α) :
+    barrierArray f γ Rmin dGs = dGs.map (fun d => rcritUsed f γ d Rmin) := by
+  induction dGs with
+  | nil => simp [barrierArray, compress, scatter]
+  | cons d ds ih =>
+    unfold barrierArray at ih ⊢
+    by_cases h : (0 : α) < d
+    · simp only [List.map_cons, h, decide_true, compress, List.zipWith_cons_cons, scatter, ih]
+      simp [rcritUsed, h, amax2]
+    · simp only [List.map_cons, h, decide_false, compress, scatter, ih]
+      simp [rcritUsed, h]
+
+theorem barrier_array_length (f γ Rmin : α) (dGs : List α) : (barrierArray f γ Rmin dGs).length = dGs.length := by
+  rw [barrier_array_eq_map_scalar, List.length_map]
+
+/-- entry `i` of the array answer is the scalar answer for condition `i` -/
+theorem barrier_array_entry (f γ Rmin : α) (dGs : List α) (i : Nat) (h : i < dGs.length) :
+    (barrierArray f γ Rmin dGs)[i]? = some (rcritUsed f γ dGs[i] Rmin) := by
+  rw [barrier_array_eq_map_scalar]; simp [h]
+
+/-- **property relation per entry**: for every condition of the batch whose critical radius is not clamped, the
+Gibbs-Thomson energy of a particle of the reported critical radius equals the chemical driving force of THAT condition -/
+theorem barrier_array_gibbsThomson (Vm E f γ Rmin : α) (dGs : List α) (i : Nat) (h : i < dGs.length)
+    (hVm : Vm ≠ 0) (hf : f ≠ 0) (hγ : γ ≠ 0) (hd : 0 < volDG dGs[i] Vm E)
+    (hun : Rmin ≤ rcritProposal f γ (volDG dGs[i] Vm E)) :
+    ∃ r, (barrierArray f γ Rmin (dGs.map (fun dG => volDG dG Vm E)))[i]? = some r ∧ dGs[i] - gExtra Vm E f γ r = 0 := by
+  refine ⟨rcritProposal f γ (volDG dGs[i] Vm E), ?_, gibbsThomson_at_Rcrit _ Vm E f γ hVm hf hγ hd.ne'⟩
+  rw [barrier_array_eq_map_scalar]
+  simp [h, rcritUsed_unclamped f γ _ Rmin hd hun]
+
+attribute [local instance] ratTrans in
+/-- witness for the maximum WITHOUT `axis=0` (one number for the batch): driving forces `[1, 2]`, `f = γ = 1`,
+`Rmin = 1/10`: the scalar answers are `[2, 1]`, the global maximum answers `[2, 2]`, and the Gibbs-Thomson energy at the
+second reported radius is `1`, not the driving force `2` of that condition -/
+theorem globalMax_witness :
+    barrierArray (1 : ℚ) 1 (1 / 10) [1, 2] = [2, 1] ∧ barrierArrayGlobalMax (1 : ℚ) 1 (1 / 10) [1, 2] = [2, 2] ∧
+    barrierArrayGlobalMax (1 : ℚ) 1 (1 / 10) [1, 2] ≠ [1, 2].map (fun d => rcritUsed (1 : ℚ) 1 d (1 / 10)) ∧
+    (2 : ℚ) - gExtra 1 0 1 1 2 ≠ 0 := by
+  refine ⟨?_, ?_, ?_, ?_⟩
+  · rw [barrier_array_eq_map_scalar]; simp [rcritUsed, rcritProposal]; norm_num
+  · simp [barrierArrayGlobalMax, compress, scatter, amaxList, amax2, rcritProposal]; norm_num
+  · simp [barrierArrayGlobalMax, compress, scatter, amaxList, amax2, rcritProposal, rcritUsed]; norm_num
+  · simp [gExtra]; norm_num
+
+/-- a batch in which the global maximum is invisible: one condition (all that the KWN model passes) -/
+theorem globalMax_eq_of_single (f γ Rmin d : α) :
+    barrierArrayGlobalMax f γ Rmin [d] = barrierArray f γ Rmin [d] := by
+  by_cases h : (0 : α) < d <;>
+    simp [barrierArrayGlobalMax, barrierArray, compress, scatter, amaxList, amax2, h]
+
+end barrier_array
+
+/-! ### Round 6 (b): every phase's growth uses its OWN Gibbs-Thomson parameters -/
+
+section multiphase
+variable {α : Type} [Field α] [LinearOrder α] [IsStrictOrderedRing α] [Trans α]
+
+/-- the Gibbs-Thomson energies handed to the growth law for phase `p` are those of phase `p`'s own parameters -/
+theorem gibbsArgs_own (ps : List (PhasePar α)) (p : Nat) (q : PhasePar α) (hq : ps[p]? = some q) (bounds : List α) :
+    gibbsArgs ps some p bounds = bounds.map (fun R => some (gExtra q.vm q.e q.f q.gamma R)) := by
+  simp [gibbsArgs, particleGibbs, phaseIndex, hq]
+
+/-- `_singleGrowthMulti` for phase `p` of a multi-phase model IS the regenerated single-phase growth rate evaluated with
+phase `p`'s parameters -/
+theorem growthOfPhase_own (ps : List (PhasePar α)) (p : Nat) (q : PhasePar α) (hq : ps[p]? = some q) (kf mc R dGv Va : α) :
+    growthOfPhase ps some p kf mc R dGv = some (growthMultiKWN kf mc R dGv q.vm Va q.e q.f q.gamma) := by
+  simp [growthOfPhase, particleGibbs, phaseIndex, hq, growthMultiKWN, growthMulti, gExtra]
+
+/-- **multi-phase growth sign**: for EVERY phase position `p` and any parameters of the other phases, classes above
+phase `p`'s own critical radius grow and classes below shrink -/
+theorem multi_phase_growth_sign (ps : List (PhasePar α)) (p : Nat) (q : PhasePar α) (hq : ps[p]? = some q)
+    (kf mc R dG : α) (hkf : 0 < kf) (hmc : 0 < mc) (hR : 0 < R) (hVm : 0 < q.vm) (hd : 0 < volDG dG q.vm q.e) :
+    ∃ g, growthOfPhase ps some p kf mc R (volDG dG q.vm q.e) = some g ∧
+      (0 < g ↔ rcritProposal q.f q.gamma (volDG dG q.vm q.e) < R) ∧
+      (g < 0 ↔ R < rcritProposal q.f q.gamma (volDG dG q.vm q.e)) :=
+  ⟨_, growthOfPhase_own ps p q hq kf mc R _ 0,
+    kwn_multi_pos_iff kf mc R dG q.vm 0 q.e q.f q.gamma hkf hmc hR hVm hd,
+    kwn_multi_neg_iff kf mc R dG q.vm 0 q.e q.f q.gamma hkf hmc hR hVm hd⟩
+
+/-- the default phase argument is invisible for the first precipitate (single-phase models, phase 0 of any model) -/
+theorem defaultPhase_eq_first (ps : List (PhasePar α)) (kf mc R dGv : α) :
+    growthOfPhase ps (fun _ => none) 0 kf mc R dGv = growthOfPhase ps some 0 kf mc R dGv := by
+  simp [growthOfPhase, particleGibbs, phaseIndex]
+
+attribute [local instance] ratTrans in
+/-- witness for `particleGibbs` called WITHOUT the phase (default = first precipitate): γ₀ = 0.18, γ₁ = 0.084, volumetric
+driving force 1: phase 1 has Rcrit = 0.168, the class of radius 1/4 lies above it, its growth with the first phase's
+Gibbs-Thomson energy is negative while with its own it is positive -/
+theorem firstPhase_witness :
+    let ps : List (PhasePar ℚ) := [⟨1, 0, 1, 18 / 100⟩, ⟨1, 0, 1, 84 / 1000⟩]
+    rcritProposal (1 : ℚ) (84 / 1000) 1 < 1 / 4 ∧
+    (∃ g, growthOfPhase ps (fun _ => none) 1 1 1 (1 / 4) 1 = some g ∧ g < 0) ∧
+    (∃ g, growthOfPhase ps some 1 1 1 (1 / 4) 1 = some g ∧ 0 < g) := by
+  refine ⟨?_, ⟨_, rfl, ?_⟩, ⟨_, rfl, ?_⟩⟩
+  · simp [rcritProposal]; norm_num
+  · simp [growthMulti, gExtra]; norm_num
+  · simp [growthMulti, gExtra]; norm_num
+
+/-- non-vacuity of `multi_phase_growth_sign`: a second phase with its own parameters and a positive driving force -/
+example : ∃ (ps : List (PhasePar ℚ)) (q : PhasePar ℚ), ps[1]? = some q ∧ 0 < q.vm ∧ 0 < @volDG ℚ _ _ _ _ _ _ ratTrans 2 q.vm q.e :=
+  ⟨[⟨1, 0, 1, 18 / 100⟩, ⟨1, 1, 1, 84 / 1000⟩], ⟨1, 1, 1, 84 / 1000⟩, rfl, by norm_num, by simp [volDG]⟩
+
+attribute [local instance] ratTrans in
+/-- non-vacuity of `barrier_array_gibbsThomson`: a batch with an unclamped entry -/
+example : (0 : ℚ) < volDG (([3, 5] : List ℚ)[1]) (1 : ℚ) 1 ∧ (1 / 10 : ℚ) ≤ rcritProposal (1 : ℚ) 1 (volDG (([3, 5] : List ℚ)[1]) (1 : ℚ) 1) := by
+  simp [volDG, rcritProposal]; norm_num
+
+end multiphase
+
 end KawinV.Props.C12
